@@ -3,14 +3,14 @@ CONSTANTS
   NSlots = 2
   NFiles = 1
   MaxDim = 2
-  Lams <- MCLamsQ
+  Lams <- MCLamsHet
   ValsLo <- MCBin
   ValsHi <- MCBin
   Kinds = {"arch", "param", "hp"}
   MaxDec = 1
   MaxDecHi = 1
   MaxOps = 100
-  Hetero = FALSE
+  Hetero = TRUE
 INVARIANT GramDef
 INVARIANT IsInverse
 INVARIANT Symmetric
